@@ -3,8 +3,10 @@
    Proofs/LiveFacts.v (verdicts, error propagation, existence of a valid sweep order, checker link).
    The sweep order of each due batch auction is oracle data validated by the model (Match.valid_order: a duplicate-free
    rearrangement of the auction's bids with non-increasing prices); every statement quantifies over ALL valid oracles.
-   Arithmetic is unbounded in the model: the 256/315-bit overflow panic of the Go types is outside these theorems
-   (known finding D18, DESIGN.md). *)
+   Arithmetic is unbounded in the model: the 256/315-bit overflow panics of the Go types are outside these theorems.
+   The one that was reachable inside BeginBlocker below absurd balances (D18: the worth-bid conversion at a probed
+   price) is repaired in /repo (92181ac: the quotient is computed on big integers and saturates at what the bidder
+   may still receive, which is all the matching uses - the value the unbounded model computes). *)
 From Coq Require Import ZArith NArith List Bool.
 From FR Require Import Dec Types Bank Match Step Genesis Model Spec Checkers.
 From FR.Proofs Require Import InvDefs FrameFacts BlockFacts InvAll FixedFacts LiveFacts ExcessExamples.
